@@ -270,7 +270,7 @@ def _raising_tests(E: Engine, f) -> list[ast.AST]:
 
 
 def _declare_rules(E: Engine, rep: Report) -> None:
-    from .symutil import S as _Sd, raises_when as _rw
+    from .symutil import S as _Sd, is_ as _isd, raises_when as _rw
 
     dc = E.method(SEQ, "declare_channel")
     Sdc = _Sd(E, dc)
@@ -282,6 +282,45 @@ def _declare_rules(E: Engine, rep: Report) -> None:
     Scd = _Sd(E, cdm)
     rep.check(_rw(Scd, "dmm_id not in self.available_channels"), "DECLARE", "_config_detuning_map|not-available", "rejects a DMM id that is not available", "_config_detuning_map no longer rejects an unavailable DMM", E.where(cdm))
     rep.check(_rw(Scd, "self._in_xy"), "DECLARE", "_config_detuning_map|xy-excludes-dmm", "a DMM is refused in XY mode", "_config_detuning_map no longer refuses a DMM in XY mode", E.where(cdm))
+    # an optional *qubit id* is tested with `is (not) None`: 0 and "" are legal ids, a truthiness test would treat
+    # them as "no id given" (declare_channel(..., initial_target=0) would silently leave the channel without target)
+    n_idp = 0
+    for g in E.P.all_functions():
+        if g.module.name != "pulser.sequence.sequence" or g.kind == "overload":
+            continue
+        a_ = g.node.args
+        idp = set()
+        for x in a_.posonlyargs + a_.args + a_.kwonlyargs:
+            if x.annotation is None:
+                continue
+            an = ast.unparse(x.annotation)
+            d_ = g.param_defaults().get(x.arg)
+            # the annotation admits a bare QubitId (not only collections of ids) and the default is None
+            def _alts(n_):
+                if isinstance(n_, ast.BinOp) and isinstance(n_.op, ast.BitOr):
+                    return _alts(n_.left) + _alts(n_.right)
+                if isinstance(n_, ast.Subscript) and (dotted(n_.value) or "").split(".")[-1] in ("Optional", "Union"):
+                    sl = n_.slice
+                    return [y for e_ in (sl.elts if isinstance(sl, ast.Tuple) else [sl]) for y in _alts(e_)]
+                return [n_]
+
+            bare = any(isinstance(y, ast.Name) and y.id == "QubitId" for y in _alts(x.annotation))
+            if bare and isinstance(d_, ast.Constant) and d_.value is None:
+                idp.add(x.arg)
+        if not idp:
+            continue
+        for l in _Sd(E, g, inline=False).logged("test"):
+            for lit in ([l.value] if l.value[0] not in ("and", "or") else list(l.value[1:])):
+                t = lit[1] if lit[0] == "not" else lit
+                if t[0] == "name" and t[1] in idp and l.fn == g.short:
+                    n_idp += 1
+                    rep.violation("DECLARE", f"{g.short}|{t[1]}|optional-id-tested-by-truthiness", f"{g.short} tests the optional qubit id `{t[1]}` for truthiness: the ids 0 and '' are legal and would be treated as if no id had been given; test `is not None`", E.where(g, l.node))
+                m_ = _isd(lit, "Q_v is not None") or _isd(lit, "Q_v is None")
+                if m_ is not None and m_["Q_v"][0] == "name" and m_["Q_v"][1] in idp and l.fn == g.short:
+                    n_idp += 1
+                    rep.ok("DECLARE", f"{g.short}|{m_['Q_v'][1]}|optional-id-tested-with-is-None", "optional qubit id tested with `is (not) None`", E.where(g, l.node))
+    if n_idp < 1:
+        rep.error("no presence test of an optional qubit-id parameter found (expected declare_channel.initial_target)")
     # available_channels filter
     av = E.method(SEQ, "available_channels")
     from .. import sym as _symA
